@@ -751,7 +751,7 @@ def run(rep, tier, seed):
           for k, v in EM.items()}
 
     # 1. exhaustive model checking: one instance after the other, in the background -------------------------
-    nw = common.NCPU if thorough else max(2, common.NCPU // 3)
+    nw = max(2, common.NCPU // 2) if thorough else max(2, common.NCPU // 3)
 
     def chain():
         return {k: tlc.run("RetainState_mc", v[0], MODDIR, workers=nw, want_prints=False, timeout=6000)
@@ -1168,7 +1168,7 @@ def traces_collect(thorough, seed, recorder=None, ntraces=None):
     """record + validate; returns plain data (so that it can run in a child process next to the edge replay)"""
     rec = recorder or ReactorRecorder()
     rng = random.Random(seed * 7919 + 16)
-    nt = ntraces or (250 if thorough else 40)
+    nt = ntraces or (200 if thorough else 40)
     nev = 60 if thorough else 40
     t0 = time.time()
     traces = [rec.record("t%d" % t, nev, rng) for t in range(nt)]
@@ -1302,7 +1302,7 @@ def replay(payload):
         thorough = payload.get("tier") == "thorough"
         want = payload["trace_id"]
         tr = None
-        for t in range(250 if thorough else 40):
+        for t in range(200 if thorough else 40):
             tr = rec.record("t%d" % t, 60 if thorough else 40, rng)
             if tr["id"] == want:
                 break
